@@ -265,3 +265,27 @@ def total_by_id_copy(a):
     fresh = _Rec(a.copy())
     _BY_ID_COPY[id(a)] = fresh
     return fresh.total
+
+
+from functools import cached_property
+
+
+class _Fitted:
+    """pattern H: cached_property over something a later fit changes / over something fixed at construction"""
+
+    def __init__(self, steps):
+        self._steps = steps
+        self.lo = None
+        self.hi = None
+
+    def fit(self, xs):
+        self.lo, self.hi = min(xs), max(xs)
+        return self
+
+    @cached_property
+    def grid_after_fit(self):
+        return np.linspace(self.lo, self.hi, self._steps)
+
+    @cached_property
+    def unit_grid(self):
+        return np.linspace(0.0, 1.0, self._steps)
